@@ -55,7 +55,8 @@ T_C18a_state == [][Live => /\ Ev.obs.nbr = (cur' # 0)
 \* the neighbour's routes in the forwarder (the register / unregister commands of R replayed by the harness): all three on the
 \* face the module says, none once the neighbour is gone
 T_C18a_routes == [][Live => { <<Ev.obs.nroutes[k][1], Ev.obs.nroutes[k][2]>> : k \in 1..Len(Ev.obs.nroutes) }
-                            = (IF cur' # 0 /\ nface' # 0 THEN { <<"adv", nface'>>, <<"sync", nface'>>, <<"pfx", nface'>> } ELSE {})]_tvars
+                            = (IF cur' # 0 /\ nface' # 0 THEN { <<"adv", nface'>>, <<"sync", nface'>>, <<"pfx", nface'>> } ELSE {})
+                              \cup (IF applied' # 0 THEN { <<"dst", nface'>> } ELSE {})]_tvars      \* the installed route follows the face too
 I_C18a_routes == RoutesFollowFace
 \* P's side as the harness sees it: the number announced and the content published
 T_C18a_pub == [][(Is("pchange") \/ Is("pbeat")) => (Ev.pseq = pseq' /\ Ev.pcont = pcont')]_tvars
